@@ -10,7 +10,7 @@ use crate::{
     shared::util::itime::ITimestamp,
     tz::{Offset, TimeZone},
     util::{
-        rangeint::{self, Composite, RFrom, RInto},
+        rangeint::{self, Composite, RFrom, RInto, TryRFrom},
         round::increment,
         t::{
             self, FractionalNanosecond, NoUnits, NoUnits128, UnixMicroseconds,
@@ -3653,7 +3653,10 @@ impl TimestampRound {
             self.smallest,
             increment,
         );
-        let nanosecond = UnixNanoseconds::rfrom(rounded);
+        // Rounding can go beyond the maximum (or minimum) timestamp, e.g.,
+        // `Timestamp::MAX` rounded up to the nearest hour.
+        let nanosecond =
+            UnixNanoseconds::try_rfrom("timestamp-nanoseconds", rounded)?;
         Ok(Timestamp::from_nanosecond_ranged(nanosecond))
     }
 }
